@@ -64,3 +64,52 @@ class RealCosineBank(LinearFilterBank):
         if not len(nz):
             return 0, np.zeros(0)
         return int(nz[0]), h[nz[0]: nz[-1] + 1].copy()
+
+
+def user_computer_class():
+    """A frame computer written against the public base class LinearFilterBankFrameComputer, the way the documentation
+    allows: it hands `bank` (an object, an alias string or a mapping) to the base constructor and computes one frame for
+    the whole signal - for every filter the energy of the signal passed through it (circular convolution with the
+    filter's frequency response), preceded by the signal energy when include_energy.  Alias "vfband"."""
+    import numpy as np
+    from pydrobert.speech.compute import LinearFilterBankFrameComputer
+
+    existing = [c for c in LinearFilterBankFrameComputer.__subclasses__() if c.__name__ == "WholeSignalBandEnergy"]
+    if existing:
+        return existing[0]
+
+    class WholeSignalBandEnergy(LinearFilterBankFrameComputer):
+        aliases = {"vfband"}
+
+        def __init__(self, bank, include_energy=False):
+            super().__init__(bank, include_energy)
+            self._chunks = []
+
+        frame_style = property(lambda self: "causal")
+        sampling_rate = property(lambda self: self.bank.sampling_rate)
+        frame_length = property(lambda self: 1)
+        frame_length_ms = property(lambda self: 1000.0 / self.bank.sampling_rate)
+        frame_shift = property(lambda self: 1)
+        frame_shift_ms = property(lambda self: 1000.0 / self.bank.sampling_rate)
+        started = property(lambda self: bool(self._chunks))
+
+        def compute_chunk(self, chunk):
+            self._chunks.append(np.array(chunk, dtype=np.float64))
+            return np.empty((0, self.num_coeffs))
+
+        def finalize(self):
+            x = np.concatenate(self._chunks) if self._chunks else np.zeros(0)
+            self._chunks = []
+            if len(x) == 0:
+                return np.empty((0, self.num_coeffs))
+            X = np.fft.fft(x)
+            out = [float(np.sum(x ** 2))] if self.includes_energy else []
+            for i in range(self.bank.num_filts):
+                out.append(float(np.sum(np.abs(X * self.bank.get_frequency_response(i, len(x))) ** 2)) / len(x))
+            return np.array([out])
+
+    _KEEP.append(WholeSignalBandEnergy)
+    return WholeSignalBandEnergy
+
+
+_KEEP = []
